@@ -17,11 +17,15 @@ use tonic_types::{
 };
 use vcommon::*;
 
+mod wire;
+use wire::{put_key as key, put_len as ld, put_varint as varint, put_varint_padded as varint_padded, V};
+
 const IMPORTS: &str =
     "From Verif Require Import Lib.Bytes Lib.Obs Lib.HeaderMap Model.Status Model.ProtoWire Model.RichError.";
 
 /// seconds of the largest protobuf Duration (and of RetryInfo::MAX_RETRY_DELAY)
 const PB_MAX_SECS: u64 = 315_576_000_000;
+const DETAILS_BIN: &str = "grpc-status-details-bin";
 const URLS: [&str; 10] = [
     "type.googleapis.com/google.rpc.RetryInfo",
     "type.googleapis.com/google.rpc.DebugInfo",
@@ -74,16 +78,9 @@ impl Det {
 fn chunks15(b: &[u8]) -> Vec<u128> {
     b.chunks(15).map(|c| c.iter().fold(0u128, |a, x| a * 256 + *x as u128)).collect()
 }
-fn digest(a: u128, b: &[u8]) -> u128 {
-    b.iter().fold(0u128, |h, x| (h * a + *x as u128 + 1) & ((1 << 61) - 1))
-}
 /// observable of a byte string: as it is up to 96 bytes, length and two digests above (`obs_bytes`)
 fn pb(b: &[u8]) -> Tr {
-    if b.len() <= 96 {
-        Tr::b(b)
-    } else {
-        Tr::L(vec![Tr::n(76u8), Tr::n(b.len() as u64), Tr::N(digest(263, b)), Tr::N(digest(1009, b))])
-    }
+    wire::pb(b)
 }
 fn ps(s: &str) -> Tr {
     pb(s.as_bytes())
@@ -389,6 +386,14 @@ impl Decoded {
         ])
     }
 }
+/// a type URL in the embedded status: the number of its kind for the ten standard URLs (compared
+/// with the constants of wire.rs, not with tonic-types'), the bytes otherwise (`obs_url`)
+fn url_tr(u: &[u8]) -> Tr {
+    match wire::kind_of_url(u) {
+        Some(k) => Tr::n(k as u64),
+        None => pb(u),
+    }
+}
 fn decode_all(st: &Status) -> Decoded {
     let mut p = vec![];
     let check = call(|| st.check_error_details(), |r| r.map(|d| ok(tr_details(&d))).unwrap_or_else(|_| err()), &mut p, "check_error_details");
@@ -411,7 +416,7 @@ fn decode_all(st: &Status) -> Decoded {
     let embedded = call(
         || pb::Status::decode(st.details()),
         |r| match r {
-            Ok(st) => ok(Tr::L(vec![Tr::n(st.code as u32), ps(&st.message), Tr::n(st.details.len() as u64)])),
+            Ok(st) => ok(Tr::L(vec![Tr::n(st.code as u32), ps(&st.message), Tr::L(st.details.iter().map(|a| url_tr(a.type_url.as_bytes())).collect())])),
             Err(_) => err(),
         },
         &mut p,
@@ -483,18 +488,27 @@ fn via_headers(st: &Status) -> (Tr, Option<(Status, Decoded)>, Option<String>) {
 
 // ------------------------------------------------------------------ the oracle for attached details
 /// what the property promises for a detail: the value that was attached, computed from the harness's
-/// own description only (RetryInfo::new's clamp is part of constructing the value and is redone by
-/// hand).  Wildcard: a literal delay outside the protobuf range, which the property does not cover.
+/// own description only.  Two documented substitutions are part of constructing / writing the value
+/// and are redone by hand: RetryInfo::new clamps a delay above MAX_RETRY_DELAY to it; a literal
+/// RetryInfo whose seconds do not fit the int64 of google.protobuf.Duration is written as that
+/// maximum (retry_info.rs, From<RetryInfo> for pb::RetryInfo).  A literal delay between the protobuf
+/// maximum and i64::MAX seconds is outside the property's quantifier but representable: it has to
+/// come back unchanged like any other (no wildcard).
 fn expected(d: &Det) -> Tr {
     let b = |x: &String| ps(x);
     let pairs = |v: &Vec<(String, String)>| Tr::L(v.iter().map(|(x, y)| Tr::L(vec![b(x), b(y)])).collect());
     match d {
         Det::Retry { delay, via_new } => {
-            if !in_range(d) {
-                return Tr::tag(0, vec![Tr::N(WILD)]);
-            }
-            // RetryInfo::new's documented clamp, by hand: above 315,576,000,000.999999999 s it is that value
-            let shown = delay.map(|(s, n)| if *via_new && (s, n) > (PB_MAX_SECS, 999_999_999) { (PB_MAX_SECS, 999_999_999) } else { (s, n) });
+            const MAX: (u64, u32) = (PB_MAX_SECS, 999_999_999);
+            let shown = delay.map(|(s, n)| {
+                if *via_new && (s, n) > MAX {
+                    MAX
+                } else if !*via_new && s > i64::MAX as u64 {
+                    MAX
+                } else {
+                    (s, n)
+                }
+            });
             Tr::tag(0, vec![Tr::opt(shown.map(|(s, n)| Tr::L(vec![Tr::n(s), Tr::n(n)])))])
         }
         Det::Debug(stack, detail) => Tr::tag(1, vec![Tr::L(stack.iter().map(b).collect()), b(detail)]),
@@ -512,17 +526,37 @@ fn expected(d: &Det) -> Tr {
         Det::Loc(x, y) => Tr::tag(9, vec![b(x), b(y)]),
     }
 }
+/// inside the property's quantifier (durations within the protobuf range)?
 fn in_range(d: &Det) -> bool {
     !matches!(d, Det::Retry { delay: Some((s, _)), via_new: false } if *s > PB_MAX_SECS)
 }
-const WILD: u128 = u128::MAX;
-/// equality up to the wildcard of `expected`
-fn same(a: &Tr, pat: &Tr) -> bool {
-    match (a, pat) {
-        (_, Tr::N(n)) if *n == WILD => true,
-        (Tr::L(x), Tr::L(y)) => x.len() == y.len() && x.iter().zip(y).all(|(p, q)| same(p, q)),
-        (x, y) => x == y,
+
+/// the details bytes read by the independent decoder of wire.rs (no prost, no tonic-types): a
+/// well-formed google.rpc.Status with this code, this message, and one Any per expected detail, in
+/// order, with the standard type URL of its kind and a payload that means the expected value
+fn judge_wire(code: u32, msg: &str, exp: &[(usize, Tr)], raw: &[u8]) -> Option<String> {
+    let st = match wire::read_status(raw) {
+        V::Ok(st) => st,
+        V::Malformed(w) => return Some(format!("independent decoder: the details bytes are not a well-formed google.rpc.Status ({})", w)),
+        V::Unsure(w) => return Some(format!("independent decoder: the details bytes use a construct a google.rpc.Status encoder has no reason to write ({})", w)),
+    };
+    if st.code as u32 != code || st.message != msg.as_bytes() {
+        return Some("independent decoder: embedded google.rpc.Status does not carry the outer code / message".into());
     }
+    if st.details.len() != exp.len() {
+        return Some(format!("independent decoder: embedded google.rpc.Status has {} details, {} were attached", st.details.len(), exp.len()));
+    }
+    for (i, ((url, value), (k, want))) in st.details.iter().zip(exp).enumerate() {
+        if url != wire::DETAIL_URLS[*k].as_bytes() {
+            return Some(format!("independent decoder: detail {} has type URL {:?}, the standard URL of its kind is {}", i, String::from_utf8_lossy(url), wire::DETAIL_URLS[*k]));
+        }
+        match wire::read_detail(*k, value) {
+            V::Ok(t) if t == *want => {}
+            V::Ok(_) => return Some(format!("independent decoder: the payload of detail {} ({}) does not mean the attached field values (field numbers of error_details.proto)", i, wire::DETAIL_URLS[*k])),
+            V::Malformed(w) | V::Unsure(w) => return Some(format!("independent decoder: the payload of detail {} is not a plain well-formed message ({})", i, w)),
+        }
+    }
+    None
 }
 
 /// direct check of the property on what came back; `list` = the attached details in the order
@@ -530,7 +564,9 @@ fn same(a: &Tr, pat: &Tr) -> bool {
 /// the user metadata must arrive: every entry that was given, per name in order, except the names
 /// gRPC reserves; nothing else
 fn judge_md(md: &[(String, Vec<u8>)], back: &Status) -> Option<String> {
-    const RESERVED: [&str; 6] = ["te", "user-agent", "content-type", "grpc-message", "grpc-message-type", "grpc-status"];
+    // the names into_sanitized_headers strips, and the name of the details header itself: whatever the
+    // user put under it is replaced by the attached details and never stays in the metadata
+    const RESERVED: [&str; 7] = ["te", "user-agent", "content-type", "grpc-message", "grpc-message-type", "grpc-status", DETAILS_BIN];
     let got = back.metadata();
     let mut names: Vec<&str> = md.iter().map(|(k, _)| k.as_str()).filter(|k| !RESERVED.contains(k)).collect();
     names.sort();
@@ -572,10 +608,10 @@ fn judge(code: u32, msg: &str, list: &[Det], md: &[(String, Vec<u8>)], back: &St
     let exp: Vec<Tr> = list.iter().map(expected).collect();
     // ordered list: same kinds, order, values
     let want_vec = ok(Tr::L(exp.clone()));
-    if !same(&d.check_vec, &want_vec) {
+    if d.check_vec != want_vec {
         return Some("check_error_details_vec: recovered list differs from the attached details (kinds / order / values)".into());
     }
-    if !same(&d.get_vec, &want_vec) {
+    if d.get_vec != want_vec {
         return Some("get_error_details_vec differs from the attached details".into());
     }
     // set: the last of each kind
@@ -588,23 +624,25 @@ fn judge(code: u32, msg: &str, list: &[Det], md: &[(String, Vec<u8>)], back: &St
         }
     }
     let want_set = ok(Tr::L(slots));
-    if !same(&d.check, &want_set) {
+    if d.check != want_set {
         return Some("check_error_details: recovered set differs from the attached details".into());
     }
-    if !same(&d.get, &want_set) {
+    if d.get != want_set {
         return Some("get_error_details differs from the attached details".into());
     }
     for k in 0..10 {
-        if !same(&d.getters[k], &ok(firsts[k].clone())) {
+        if d.getters[k] != ok(firsts[k].clone()) {
             return Some(format!("get_details getter {} does not return the first detail of its kind", k));
         }
     }
-    // embedded google.rpc.Status
-    let want_emb = ok(Tr::L(vec![Tr::n(code), ps(msg), Tr::n(list.len() as u64)]));
+    // embedded google.rpc.Status, as prost reads it ...
+    let want_emb = ok(Tr::L(vec![Tr::n(code), ps(msg), Tr::L(list.iter().map(|d| Tr::n(d.kind() as u64)).collect())]));
     if d.embedded != want_emb {
-        return Some("embedded google.rpc.Status does not carry the outer code / message / all details".into());
+        return Some("embedded google.rpc.Status does not carry the outer code / message / one Any of the right type URL per detail".into());
     }
-    None
+    // ... and as the independent decoder reads it
+    let exp_k: Vec<(usize, Tr)> = list.iter().map(|d| d.kind()).zip(exp).collect();
+    judge_wire(code, msg, &exp_k, raw_before)
 }
 
 // ------------------------------------------------------------------ generators
@@ -717,13 +755,28 @@ fn gen_md(r: &mut Rng) -> Vec<(String, Vec<u8>)> {
         return vec![];
     }
     let keys = ["x-a", "x-a", "x-trace-id", "x-payload-bin", "x-other-bin", "authorization", "grpc-message", "te", "content-type"];
-    (0..r.range(1, 4))
+    let mut md: Vec<(String, Vec<u8>)> = (0..r.range(1, 4))
         .map(|_| {
             let k = *r.pick(&keys);
             let v: Vec<u8> = if k.ends_with("-bin") { rbytes(r, 0, 5) } else { (0..r.range(0, 6)).map(|_| r.range(0x20, 0x7e) as u8).collect() };
             (k.to_string(), v)
         })
-        .collect()
+        .collect();
+    // the caller's own grpc-status-details-bin entries (one or two): someone else's details, or junk
+    if r.chance(1, 5) {
+        for _ in 0..r.range(1, 2) {
+            let v = if r.chance(2, 3) {
+                let k = r.below(10) as usize;
+                let d = gen_det(r, k, false);
+                ind_status(r, 7, "own", &[d])
+            } else {
+                rbytes(r, 1, 8)
+            };
+            let at = r.below(md.len() as u64 + 1) as usize;
+            md.insert(at, (DETAILS_BIN.to_string(), v));
+        }
+    }
+    md
 }
 fn md_map(md: &[(String, Vec<u8>)]) -> MetadataMap {
     let mut m = MetadataMap::new();
@@ -793,9 +846,31 @@ fn finish_attached(out: &mut Out, kind: String, input: Value, model: String, cod
         Ok(st) => {
             let (t, back, why) = via_headers(&st);
             out.hist("attached.details_bytes", size_bucket(st.details().len()));
+            let own = md.iter().find(|(k, _)| k == DETAILS_BIN).map(|(_, v)| v.clone());
             let oracle = match (&back, why) {
                 (_, Some(w)) => Some(w),
-                (Some((b, d)), None) => judge(code, msg, list, md, b, d, st.details()),
+                (Some((b, d)), None) => match own {
+                    // Observation (not in the property's quantifier): nothing attached at all (code OK,
+                    // no message, no details = empty details bytes) and the caller put a
+                    // grpc-status-details-bin entry of its own into the metadata: that entry is what
+                    // travels.  Judged: it arrives as it was given, and reading it follows the decode
+                    // clauses (never a panic, error or empty when undecodable, values by the
+                    // independent decoder).
+                    Some(v) if st.details().is_empty() => {
+                        out.hist("attached.own_details_entry", "travels (nothing attached)");
+                        if b.details() != v.as_slice() {
+                            Some("nothing attached: the caller's own grpc-status-details-bin entry did not arrive as given".into())
+                        } else {
+                            judge_md(md, b).or_else(|| judge_decode(d, &v))
+                        }
+                    }
+                    _ => {
+                        if own.is_some() {
+                            out.hist("attached.own_details_entry", "replaced by the attached details");
+                        }
+                        judge(code, msg, list, md, b, d, st.details())
+                    }
+                },
                 (None, None) => Some("no status".into()),
             };
             (t, oracle)
@@ -855,6 +930,318 @@ fn case_vec(out: &mut Out, prefix: &str, code: u32, msg: &str, ds: &[Det], md: &
     finish_attached(out, kind, input, model, code, msg, ds, md, st);
 }
 
+// ------------------------------------------------------------------ kind: built
+/// One call of the public builder API of ErrorDetails (error_details/mod.rs); the first call of a
+/// sequence may be made as the corresponding `ErrorDetails::with_*` constructor.
+#[derive(Clone, Debug)]
+enum Op {
+    SetRetry(Option<(u64, u32)>),
+    SetDebug(Vec<String>, String),
+    SetQuota(Vec<(String, String)>),
+    AddQuota(String, String),
+    SetInfo(String, String, Vec<(String, String)>),
+    SetPrec(Vec<(String, String, String)>),
+    AddPrec(String, String, String),
+    SetBad(Vec<(String, String)>),
+    AddBad(String, String),
+    SetReq(String, String),
+    SetRes(String, String, String, String),
+    SetHelp(Vec<(String, String)>),
+    AddHelp(String, String),
+    SetLoc(String, String),
+}
+fn gen_op(r: &mut Rng) -> Op {
+    let k = r.below(10) as usize;
+    let add = r.chance(1, 2);
+    match (gen_det(r, k, false), add) {
+        (Det::Retry { delay, .. }, _) => Op::SetRetry(delay),
+        (Det::Debug(a, b), _) => Op::SetDebug(a, b),
+        (Det::Quota(_), true) => Op::AddQuota(gen_string(r), gen_string(r)),
+        (Det::Quota(v), false) => Op::SetQuota(v),
+        (Det::Info(a, b, m), _) => Op::SetInfo(a, b, m),
+        (Det::Prec(_), true) => Op::AddPrec(gen_string(r), gen_string(r), gen_string(r)),
+        (Det::Prec(v), false) => Op::SetPrec(v),
+        (Det::Bad(_), true) => Op::AddBad(gen_string(r), gen_string(r)),
+        (Det::Bad(v), false) => Op::SetBad(v),
+        (Det::Req(a, b), _) => Op::SetReq(a, b),
+        (Det::Res(a, b, c, e), _) => Op::SetRes(a, b, c, e),
+        (Det::Help(_), true) => Op::AddHelp(gen_string(r), gen_string(r)),
+        (Det::Help(v), false) => Op::SetHelp(v),
+        (Det::Loc(a, b), _) => Op::SetLoc(a, b),
+    }
+}
+/// the real call; returns the Gallina literal of the operation (an ErrorInfo map is listed in the
+/// iteration order of the very instance that is handed over)
+fn apply_op(ed: &mut ErrorDetails, op: &Op, as_with: bool) -> String {
+    let qv = |v: &Vec<(String, String)>| v.iter().map(|(a, b)| QuotaViolation::new(a.clone(), b.clone())).collect::<Vec<_>>();
+    let pv = |v: &Vec<(String, String, String)>| v.iter().map(|(a, b, c)| PreconditionViolation::new(a.clone(), b.clone(), c.clone())).collect::<Vec<_>>();
+    let fv = |v: &Vec<(String, String)>| v.iter().map(|(a, b)| FieldViolation::new(a.clone(), b.clone())).collect::<Vec<_>>();
+    let hl = |v: &Vec<(String, String)>| v.iter().map(|(a, b)| HelpLink::new(a.clone(), b.clone())).collect::<Vec<_>>();
+    match op {
+        Op::SetRetry(d) => {
+            if as_with { *ed = ErrorDetails::with_retry_info(dur(d)) } else { ed.set_retry_info(dur(d)); }
+            format!("BSetRetryInfo {}", coq_dur(d))
+        }
+        Op::SetDebug(a, b) => {
+            if as_with { *ed = ErrorDetails::with_debug_info(a.clone(), b.clone()) } else { ed.set_debug_info(a.clone(), b.clone()); }
+            format!("BSetDebugInfo {} {}", coq_list(a, |s| cs(s)), cs(b))
+        }
+        Op::SetQuota(v) => {
+            if as_with { *ed = ErrorDetails::with_quota_failure(qv(v)) } else { ed.set_quota_failure(qv(v)); }
+            format!("BSetQuotaFailure {}", coq_list(v, |(a, b)| format!("(mkQuotaViolation {} {})", cs(a), cs(b))))
+        }
+        Op::AddQuota(a, b) => {
+            if as_with { *ed = ErrorDetails::with_quota_failure_violation(a.clone(), b.clone()) } else { ed.add_quota_failure_violation(a.clone(), b.clone()); }
+            format!("BAddQuotaFailureViolation {} {}", cs(a), cs(b))
+        }
+        Op::SetInfo(a, b, pairs) => {
+            let map: HashMap<String, String> = pairs.iter().cloned().collect();
+            let order: Vec<(String, String)> = map.iter().map(|(k, v)| (k.clone(), v.clone())).collect();
+            if as_with { *ed = ErrorDetails::with_error_info(a.clone(), b.clone(), map) } else { ed.set_error_info(a.clone(), b.clone(), map); }
+            format!("BSetErrorInfo {} {} {}", cs(a), cs(b), coq_list(&order, |(k, v)| format!("({},{})", cs(k), cs(v))))
+        }
+        Op::SetPrec(v) => {
+            if as_with { *ed = ErrorDetails::with_precondition_failure(pv(v)) } else { ed.set_precondition_failure(pv(v)); }
+            format!("BSetPreconditionFailure {}", coq_list(v, |(a, b, c)| format!("(mkPreconditionViolation {} {} {})", cs(a), cs(b), cs(c))))
+        }
+        Op::AddPrec(a, b, c) => {
+            if as_with { *ed = ErrorDetails::with_precondition_failure_violation(a.clone(), b.clone(), c.clone()) } else { ed.add_precondition_failure_violation(a.clone(), b.clone(), c.clone()); }
+            format!("BAddPreconditionFailureViolation {} {} {}", cs(a), cs(b), cs(c))
+        }
+        Op::SetBad(v) => {
+            if as_with { *ed = ErrorDetails::with_bad_request(fv(v)) } else { ed.set_bad_request(fv(v)); }
+            format!("BSetBadRequest {}", coq_list(v, |(a, b)| format!("(mkFieldViolation {} {})", cs(a), cs(b))))
+        }
+        Op::AddBad(a, b) => {
+            if as_with { *ed = ErrorDetails::with_bad_request_violation(a.clone(), b.clone()) } else { ed.add_bad_request_violation(a.clone(), b.clone()); }
+            format!("BAddBadRequestViolation {} {}", cs(a), cs(b))
+        }
+        Op::SetReq(a, b) => {
+            if as_with { *ed = ErrorDetails::with_request_info(a.clone(), b.clone()) } else { ed.set_request_info(a.clone(), b.clone()); }
+            format!("BSetRequestInfo {} {}", cs(a), cs(b))
+        }
+        Op::SetRes(a, b, c, e) => {
+            if as_with { *ed = ErrorDetails::with_resource_info(a.clone(), b.clone(), c.clone(), e.clone()) } else { ed.set_resource_info(a.clone(), b.clone(), c.clone(), e.clone()); }
+            format!("BSetResourceInfo {} {} {} {}", cs(a), cs(b), cs(c), cs(e))
+        }
+        Op::SetHelp(v) => {
+            if as_with { *ed = ErrorDetails::with_help(hl(v)) } else { ed.set_help(hl(v)); }
+            format!("BSetHelp {}", coq_list(v, |(a, b)| format!("(mkHelpLink {} {})", cs(a), cs(b))))
+        }
+        Op::AddHelp(a, b) => {
+            if as_with { *ed = ErrorDetails::with_help_link(a.clone(), b.clone()) } else { ed.add_help_link(a.clone(), b.clone()); }
+            format!("BAddHelpLink {} {}", cs(a), cs(b))
+        }
+        Op::SetLoc(a, b) => {
+            if as_with { *ed = ErrorDetails::with_localized_message(a.clone(), b.clone()) } else { ed.set_localized_message(a.clone(), b.clone()); }
+            format!("BSetLocalizedMessage {} {}", cs(a), cs(b))
+        }
+    }
+}
+/// what the documentation of the builder methods promises, on the harness's own description:
+/// `set_*` replaces the detail, `add_*` appends to its list or starts it
+fn simulate(ops: &[Op]) -> [Option<Det>; 10] {
+    let mut slots = NONE10;
+    for op in ops {
+        match op.clone() {
+            Op::SetRetry(d) => slots[0] = Some(Det::Retry { delay: d, via_new: true }),
+            Op::SetDebug(a, b) => slots[1] = Some(Det::Debug(a, b)),
+            Op::SetQuota(v) => slots[2] = Some(Det::Quota(v)),
+            Op::AddQuota(a, b) => match &mut slots[2] {
+                Some(Det::Quota(v)) => v.push((a, b)),
+                _ => slots[2] = Some(Det::Quota(vec![(a, b)])),
+            },
+            Op::SetInfo(a, b, m) => slots[3] = Some(Det::Info(a, b, m)),
+            Op::SetPrec(v) => slots[4] = Some(Det::Prec(v)),
+            Op::AddPrec(a, b, c) => match &mut slots[4] {
+                Some(Det::Prec(v)) => v.push((a, b, c)),
+                _ => slots[4] = Some(Det::Prec(vec![(a, b, c)])),
+            },
+            Op::SetBad(v) => slots[5] = Some(Det::Bad(v)),
+            Op::AddBad(a, b) => match &mut slots[5] {
+                Some(Det::Bad(v)) => v.push((a, b)),
+                _ => slots[5] = Some(Det::Bad(vec![(a, b)])),
+            },
+            Op::SetReq(a, b) => slots[6] = Some(Det::Req(a, b)),
+            Op::SetRes(a, b, c, e) => slots[7] = Some(Det::Res(a, b, c, e)),
+            Op::SetHelp(v) => slots[8] = Some(Det::Help(v)),
+            Op::AddHelp(a, b) => match &mut slots[8] {
+                Some(Det::Help(v)) => v.push((a, b)),
+                _ => slots[8] = Some(Det::Help(vec![(a, b)])),
+            },
+            Op::SetLoc(a, b) => slots[9] = Some(Det::Loc(a, b)),
+        }
+    }
+    slots
+}
+fn op_json(op: &Op) -> Value {
+    let pairs = |v: &Vec<(String, String)>| Value::Array(v.iter().map(|(a, b)| json!([hs(a), hs(b)])).collect());
+    match op {
+        Op::SetRetry(d) => json!({"op": "set_retry_info", "delay": d.map(|(s, n)| json!([s.to_string(), n]))}),
+        Op::SetDebug(a, b) => json!({"op": "set_debug_info", "stack": a.iter().map(|s| hs(s)).collect::<Vec<_>>(), "detail": hs(b)}),
+        Op::SetQuota(v) => json!({"op": "set_quota_failure", "v": pairs(v)}),
+        Op::AddQuota(a, b) => json!({"op": "add_quota_failure_violation", "s": [hs(a), hs(b)]}),
+        Op::SetInfo(a, b, m) => json!({"op": "set_error_info", "s": [hs(a), hs(b)], "md": pairs(m)}),
+        Op::SetPrec(v) => json!({"op": "set_precondition_failure", "v": v.iter().map(|(a, b, c)| json!([hs(a), hs(b), hs(c)])).collect::<Vec<_>>()}),
+        Op::AddPrec(a, b, c) => json!({"op": "add_precondition_failure_violation", "s": [hs(a), hs(b), hs(c)]}),
+        Op::SetBad(v) => json!({"op": "set_bad_request", "v": pairs(v)}),
+        Op::AddBad(a, b) => json!({"op": "add_bad_request_violation", "s": [hs(a), hs(b)]}),
+        Op::SetReq(a, b) => json!({"op": "set_request_info", "s": [hs(a), hs(b)]}),
+        Op::SetRes(a, b, c, e) => json!({"op": "set_resource_info", "s": [hs(a), hs(b), hs(c), hs(e)]}),
+        Op::SetHelp(v) => json!({"op": "set_help", "v": pairs(v)}),
+        Op::AddHelp(a, b) => json!({"op": "add_help_link", "s": [hs(a), hs(b)]}),
+        Op::SetLoc(a, b) => json!({"op": "set_localized_message", "s": [hs(a), hs(b)]}),
+    }
+}
+fn op_from_json(v: &Value) -> Op {
+    let pairs = |x: &Value| -> Vec<(String, String)> { x.as_array().unwrap().iter().map(|p| (unhs(&p[0]), unhs(&p[1]))).collect() };
+    let s = |i: usize| unhs(&v["s"][i]);
+    match v["op"].as_str().unwrap() {
+        "set_retry_info" => Op::SetRetry(if v["delay"].is_null() { None } else { Some((v["delay"][0].as_str().unwrap().parse().unwrap(), v["delay"][1].as_u64().unwrap() as u32)) }),
+        "set_debug_info" => Op::SetDebug(v["stack"].as_array().unwrap().iter().map(unhs).collect(), unhs(&v["detail"])),
+        "set_quota_failure" => Op::SetQuota(pairs(&v["v"])),
+        "add_quota_failure_violation" => Op::AddQuota(s(0), s(1)),
+        "set_error_info" => Op::SetInfo(s(0), s(1), pairs(&v["md"])),
+        "set_precondition_failure" => Op::SetPrec(v["v"].as_array().unwrap().iter().map(|p| (unhs(&p[0]), unhs(&p[1]), unhs(&p[2]))).collect()),
+        "add_precondition_failure_violation" => Op::AddPrec(s(0), s(1), s(2)),
+        "set_bad_request" => Op::SetBad(pairs(&v["v"])),
+        "add_bad_request_violation" => Op::AddBad(s(0), s(1)),
+        "set_request_info" => Op::SetReq(s(0), s(1)),
+        "set_resource_info" => Op::SetRes(s(0), s(1), s(2), s(3)),
+        "set_help" => Op::SetHelp(pairs(&v["v"])),
+        "add_help_link" => Op::AddHelp(s(0), s(1)),
+        _ => Op::SetLoc(s(0), s(1)),
+    }
+}
+fn case_built(out: &mut Out, prefix: &str, code: u32, msg: &str, ops: &[Op], first_as_with: bool, md: &[(String, Vec<u8>)]) {
+    let mdm = md_map(md);
+    let mdh = mdm.clone().into_headers();
+    let mut lits: Vec<String> = vec![];
+    let mut has = vec![];
+    let st = catch(AssertUnwindSafe(|| {
+        let mut ed = ErrorDetails::new();
+        for (i, op) in ops.iter().enumerate() {
+            lits.push(format!("({})", apply_op(&mut ed, op, i == 0 && first_as_with)));
+        }
+        has = vec![ed.has_quota_failure_violations(), ed.has_precondition_failure_violations(), ed.has_bad_request_violations(), ed.has_help_links()];
+        Status::with_error_details_and_metadata(Code::from_i32(code as i32), msg, ed, mdm)
+    }));
+    let slots = simulate(ops);
+    let list: Vec<Det> = slots.iter().flatten().cloned().collect();
+    let model = format!("obs_built {} {} [{}] {}", code, cs(msg), lits.join(";"), coq_hm(&mdh));
+    let input = json!({"code": code, "msg": hs(msg), "ops": ops.iter().map(op_json).collect::<Vec<_>>(), "first_as_with": first_as_with, "md": md_json(md)});
+    let want_has: Vec<bool> = [2usize, 4, 5, 8].iter().map(|k| match &slots[*k] {
+        Some(Det::Quota(v)) | Some(Det::Bad(v)) | Some(Det::Help(v)) => !v.is_empty(),
+        Some(Det::Prec(v)) => !v.is_empty(),
+        _ => false,
+    }).collect();
+    out.hist("built.ops", ops.len());
+    let has_tr = Tr::L(has.iter().map(|b| Tr::bool(*b)).collect());
+    let (obs, oracle) = match st {
+        Err(p) => (Tr::L(vec![has_tr, panicked()]), Some(format!("panic while building / attaching the details: {}", p))),
+        Ok(st) => {
+            let (t, back, why) = via_headers(&st);
+            let oracle = match (&back, why) {
+                (_, Some(w)) => Some(w),
+                (Some((b, d)), None) => {
+                    if has != want_has {
+                        Some("has_*_violations / has_help_links do not say whether the built detail has entries".into())
+                    } else if st.details().is_empty() && md.iter().any(|(k, _)| k == DETAILS_BIN) {
+                        None // the observation judged in the kinds set / vec
+                    } else {
+                        judge(code, msg, &list, md, b, d, st.details())
+                    }
+                }
+                (None, None) => Some("no status".into()),
+            };
+            (Tr::L(vec![has_tr, t]), oracle)
+        }
+    };
+    out.push(Case { kind: format!("{}built", prefix), input, model, impl_obs: obs, oracle, nontrivial: !ops.is_empty() });
+}
+
+// ------------------------------------------------------------------ the oracle for the decode side
+/// Arbitrary bytes as details.  (1) never a panic; (2) undecodable gives an error from the check_*
+/// functions and an empty result from the get_* functions, a successful check_* is what get_* returns;
+/// (3) by the independent decoder of wire.rs, wherever the encoding specification decides the reading:
+/// the embedded google.rpc.Status (code, message, type URLs), the ordered list, the set (last of a
+/// kind), every get_details_* (first of its kind that decodes), with all field values.
+fn judge_decode(d: &Decoded, details: &[u8]) -> Option<String> {
+    let empty_set = ok(Tr::L(vec![Tr::opt(None); 10]));
+    let empty_vec = ok(Tr::L(vec![]));
+    if !d.panics.is_empty() {
+        return Some(format!("panic: {}", d.panics[0]));
+    }
+    if let Some(w) = &d.rpc_ext {
+        return Some(w.clone());
+    }
+    if d.check == err() && d.get != empty_set {
+        return Some("check_error_details is Err but get_error_details is not empty".into());
+    }
+    if d.check_vec == err() && d.get_vec != empty_vec {
+        return Some("check_error_details_vec is Err but get_error_details_vec is not empty".into());
+    }
+    if d.check != err() && d.check != d.get {
+        return Some("get_error_details differs from a successful check_error_details".into());
+    }
+    if d.check_vec != err() && d.check_vec != d.get_vec {
+        return Some("get_error_details_vec differs from a successful check_error_details_vec".into());
+    }
+    if d.embedded == err() && (d.check != err() || d.check_vec != err() || d.getters.iter().any(|g| *g != ok(Tr::opt(None)))) {
+        return Some("google.rpc.Status undecodable but some getter produced details".into());
+    }
+    // --- the independent reading
+    let e = wire::expect(details);
+    match &e.embedded {
+        None => return None,
+        Some(None) => {
+            if d.embedded != err() {
+                return Some("independent decoder: the bytes are not a well-formed google.rpc.Status, yet it was decoded".into());
+            }
+            // (the clauses above then force Err / empty / None everywhere)
+            return None;
+        }
+        Some(Some((code, msg, urls))) => {
+            let want = ok(Tr::L(vec![Tr::n(*code), pb(msg), Tr::L(urls.iter().map(|u| url_tr(u)).collect())]));
+            if d.embedded != want {
+                return Some("independent decoder: embedded google.rpc.Status read with another code / message / list of type URLs".into());
+            }
+        }
+    }
+    match &e.vec {
+        None => {}
+        Some(None) => {
+            if d.check_vec != err() || d.check != err() {
+                return Some("independent decoder: a detail payload with a standard type URL is malformed, yet check_error_details[_vec] succeeded".into());
+            }
+        }
+        Some(Some(list)) => {
+            if d.check_vec != ok(Tr::L(list.clone())) {
+                return Some("independent decoder: check_error_details_vec differs from the details the bytes encode (kinds / order / field values)".into());
+            }
+            let mut slots: Vec<Tr> = vec![Tr::opt(None); 10];
+            for t in list {
+                if let Tr::L(v) = t {
+                    if let Some(Tr::N(k)) = v.first() {
+                        slots[*k as usize] = Tr::opt(Some(t.clone()));
+                    }
+                }
+            }
+            if d.check != ok(Tr::L(slots)) {
+                return Some("independent decoder: check_error_details differs from the last detail of each kind the bytes encode".into());
+            }
+        }
+    }
+    for k in 0..10 {
+        if let Some(g) = &e.getters[k] {
+            if d.getters[k] != ok(Tr::opt(g.clone())) {
+                return Some(format!("independent decoder: get_details getter {} is not the first detail of its kind that decodes", k));
+            }
+        }
+    }
+    None
+}
+
 // ------------------------------------------------------------------ kind: hostile
 fn case_hostile(out: &mut Out, prefix: &str, code: u32, msg: &str, details: &[u8], direct: bool, family: &str) {
     let st = Status::with_details(Code::from_i32(code as i32), msg, Bytes::copy_from_slice(details));
@@ -872,25 +1259,18 @@ fn case_hostile(out: &mut Out, prefix: &str, code: u32, msg: &str, details: &[u8
     };
     let mut decodable = false;
     if let Some(d) = &d {
-        // undecodable details: an error or an empty result, never a panic
-        let empty_set = ok(Tr::L(vec![Tr::opt(None); 10]));
-        let empty_vec = ok(Tr::L(vec![]));
-        if !d.panics.is_empty() {
-            oracle = Some(format!("panic: {}", d.panics[0]));
-        } else if let Some(w) = &d.rpc_ext {
-            oracle = Some(w.clone());
-        } else if d.check == err() && d.get != empty_set {
-            oracle = Some("check_error_details is Err but get_error_details is not empty".into());
-        } else if d.check_vec == err() && d.get_vec != empty_vec {
-            oracle = Some("check_error_details_vec is Err but get_error_details_vec is not empty".into());
-        } else if d.check != err() && d.check != d.get {
-            oracle = Some("get_error_details differs from a successful check_error_details".into());
-        } else if d.check_vec != err() && d.check_vec != d.get_vec {
-            oracle = Some("get_error_details_vec differs from a successful check_error_details_vec".into());
-        } else if d.embedded == err() && (d.check != err() || d.check_vec != err() || d.getters.iter().any(|g| *g != ok(Tr::opt(None)))) {
-            oracle = Some("google.rpc.Status undecodable but some getter produced details".into());
+        if let Some(w) = judge_decode(d, details) {
+            oracle = Some(w);
         }
         decodable = d.check != err();
+        let e = wire::expect(details);
+        out.hist("hostile.independent_verdict", match (&e.embedded, &e.vec) {
+            (None, _) => format!("not claimed: {}", e.why_unsure.unwrap_or("?")),
+            (Some(None), _) => "malformed".to_string(),
+            (Some(Some(_)), None) => format!("status read, a payload not claimed: {}", e.why_unsure.unwrap_or("?")),
+            (Some(Some(_)), Some(None)) => "status read, a payload malformed".to_string(),
+            (Some(Some(_)), Some(Some(_))) => "status and payloads read".to_string(),
+        });
     }
     out.hist("hostile.family", family);
     out.hist("hostile.len", size_bucket(details.len()));
@@ -905,36 +1285,7 @@ fn case_hostile(out: &mut Out, prefix: &str, code: u32, msg: &str, details: &[u8
     });
 }
 
-// a tiny protobuf writer, independent of prost, for structured hostile input
-fn varint(mut v: u64, out: &mut Vec<u8>) {
-    loop {
-        if v < 0x80 {
-            out.push(v as u8);
-            return;
-        }
-        out.push((v as u8 & 0x7f) | 0x80);
-        v >>= 7;
-    }
-}
-/// a varint padded with continuation bytes to `len` bytes (non-minimal encoding)
-fn varint_padded(v: u64, len: usize, out: &mut Vec<u8>) {
-    let mut b = vec![];
-    varint(v, &mut b);
-    while b.len() < len {
-        let l = b.len();
-        b[l - 1] |= 0x80;
-        b.push(0);
-    }
-    out.extend(b);
-}
-fn key(tag: u32, wt: u8, out: &mut Vec<u8>) {
-    varint(((tag as u64) << 3) | wt as u64, out);
-}
-fn ld(tag: u32, payload: &[u8], out: &mut Vec<u8>) {
-    key(tag, 2, out);
-    varint(payload.len() as u64, out);
-    out.extend_from_slice(payload);
-}
+// (the protobuf writer used for structured hostile input is wire.rs: put_varint, put_key, put_len)
 const VARINTS: &[u64] = &[
     0, 1, 2, 16, 17, 127, 128, 255, 300, 16_383, 16_384, (1 << 31) - 1, 1 << 31, (1 << 32) - 1, 1 << 32, (1 << 32) + 5,
     999_999_999, 1_000_000_000, PB_MAX_SECS, (1 << 63) - 1, 1 << 63, (1 << 63) + 1, u64::MAX - 1, u64::MAX,
@@ -1150,6 +1501,239 @@ fn any_bytes(url: &str, value: &[u8]) -> Vec<u8> {
     out
 }
 
+// ------------------------------------------------------------------ kind: wire
+// Details bytes written by the harness's own writer (wire.rs) from a description of the details -
+// tonic-types' encoder is not in the loop - using the liberties the encoding specification gives a
+// writer: fields in any order (elements of one repeated field keep their order), defaults written
+// explicitly or omitted, a singular field written twice (the last one counts), a singular message
+// written in two parts (they merge), non-minimal varints, unknown fields of every wire type in
+// between.  What StatusExt reads must be exactly the described details.
+
+/// one occurrence of a field: (field number, the bytes of key and value)
+type Em = (u32, Vec<u8>);
+fn em_len(tag: u32, payload: &[u8]) -> Em {
+    let mut b = vec![];
+    ld(tag, payload, &mut b);
+    (tag, b)
+}
+fn em_int(r: &mut Rng, tag: u32, v: u64) -> Em {
+    let mut b = vec![];
+    key(tag, 0, &mut b);
+    if r.chance(1, 5) {
+        varint_padded(v, r.range(2, 10) as usize, &mut b);
+    } else {
+        varint(v, &mut b);
+    }
+    (tag, b)
+}
+/// a singular string / bytes field: omitted or explicit when empty, sometimes preceded by an
+/// occurrence that does not count
+fn em_str(r: &mut Rng, tag: u32, s: &[u8], out: &mut Vec<Em>) {
+    if r.chance(1, 10) {
+        out.push(em_len(tag, gen_string(r).as_bytes()));
+    } else if s.is_empty() && r.chance(2, 3) {
+        return;
+    }
+    out.push(em_len(tag, s));
+}
+fn em_unknown(r: &mut Rng, out: &mut Vec<Em>) {
+    let tag = *r.pick(&[16u32, 17, 31, 100, 2047, 2048, (1 << 29) - 1]);
+    let mut b = vec![];
+    match r.below(4) {
+        0 => {
+            key(tag, 0, &mut b);
+            varint(*r.pick(VARINTS), &mut b);
+        }
+        1 => {
+            key(tag, 1, &mut b);
+            b.extend(r.bytes(8));
+        }
+        2 => {
+            key(tag, 5, &mut b);
+            b.extend(r.bytes(4));
+        }
+        _ => ld(tag, &rbytes(r, 0, 6), &mut b),
+    }
+    out.push((tag, b));
+}
+/// the occurrences in a random order that keeps the occurrences of one field number in theirs
+fn lay_out(r: &mut Rng, mut ems: Vec<Em>) -> Vec<u8> {
+    for _ in 0..(if r.chance(1, 4) { r.range(1, 2) } else { 0 }) {
+        em_unknown(r, &mut ems);
+    }
+    let mut order: Vec<u32> = ems.iter().map(|e| e.0).collect();
+    if r.chance(2, 3) {
+        for i in (1..order.len()).rev() {
+            let j = r.below(i as u64 + 1) as usize;
+            order.swap(i, j);
+        }
+    }
+    let mut out = vec![];
+    let mut used = vec![false; ems.len()];
+    for t in order {
+        let i = (0..ems.len()).find(|i| !used[*i] && ems[*i].0 == t).unwrap();
+        used[i] = true;
+        out.extend_from_slice(&ems[i].1);
+    }
+    out
+}
+fn ind_row(r: &mut Rng, cols: &[&String]) -> Vec<u8> {
+    let mut ems = vec![];
+    for (i, c) in cols.iter().enumerate() {
+        em_str(r, i as u32 + 1, c.as_bytes(), &mut ems);
+    }
+    lay_out(r, ems)
+}
+/// the payload of one detail, field numbers of google/rpc/error_details.proto
+fn ind_payload(r: &mut Rng, d: &Det) -> Vec<u8> {
+    let mut ems: Vec<Em> = vec![];
+    match d {
+        Det::Retry { delay, .. } => {
+            if let Some((s, n)) = delay {
+                // google.protobuf.Duration { seconds = 1; nanos = 2 }
+                let mut whole = vec![];
+                let sec = |r: &mut Rng, v: u64| em_int(r, 1, v);
+                let nan = |r: &mut Rng, v: u64| em_int(r, 2, v);
+                match r.below(4) {
+                    0 => {
+                        // in two parts: they merge
+                        let mut a = vec![];
+                        if *s != 0 || r.chance(1, 2) {
+                            a.push(sec(r, *s));
+                        }
+                        ems.push(em_len(1, &lay_out(r, a)));
+                        let mut b = vec![];
+                        if *n != 0 || r.chance(1, 2) {
+                            b.push(nan(r, *n as u64));
+                        }
+                        ems.push(em_len(1, &lay_out(r, b)));
+                    }
+                    1 => {
+                        // a first part that is overwritten field by field
+                        let decoy = vec![em_int(r, 1, 77), em_int(r, 2, 5)];
+                        ems.push(em_len(1, &lay_out(r, decoy)));
+                        let real = vec![sec(r, *s), nan(r, *n as u64)];
+                        ems.push(em_len(1, &lay_out(r, real)));
+                    }
+                    _ => {
+                        if *s != 0 || r.chance(1, 3) {
+                            whole.push(sec(r, *s));
+                        }
+                        if *n != 0 || r.chance(1, 3) {
+                            whole.push(nan(r, *n as u64));
+                        }
+                        ems.push(em_len(1, &lay_out(r, whole)));
+                    }
+                }
+            }
+        }
+        Det::Debug(stack, detail) => {
+            for e in stack {
+                ems.push(em_len(1, e.as_bytes()));
+            }
+            em_str(r, 2, detail.as_bytes(), &mut ems);
+        }
+        Det::Quota(v) | Det::Bad(v) | Det::Help(v) => {
+            for (a, b) in v {
+                ems.push(em_len(1, &ind_row(r, &[a, b])));
+            }
+        }
+        Det::Prec(v) => {
+            for (a, b, c) in v {
+                ems.push(em_len(1, &ind_row(r, &[a, b, c])));
+            }
+        }
+        Det::Info(reason, domain, pairs) => {
+            em_str(r, 1, reason.as_bytes(), &mut ems);
+            em_str(r, 2, domain.as_bytes(), &mut ems);
+            for (k, v) in pairs {
+                if r.chance(1, 8) {
+                    // the same key earlier with another value: the later entry counts
+                    let other = gen_string(r);
+                    ems.push(em_len(3, &ind_row(r, &[k, &other])));
+                }
+                ems.push(em_len(3, &ind_row(r, &[k, v])));
+            }
+        }
+        Det::Req(a, b) | Det::Loc(a, b) => {
+            em_str(r, 1, a.as_bytes(), &mut ems);
+            em_str(r, 2, b.as_bytes(), &mut ems);
+        }
+        Det::Res(a, b, c, e) => {
+            em_str(r, 1, a.as_bytes(), &mut ems);
+            em_str(r, 2, b.as_bytes(), &mut ems);
+            em_str(r, 3, c.as_bytes(), &mut ems);
+            em_str(r, 4, e.as_bytes(), &mut ems);
+        }
+    }
+    lay_out(r, ems)
+}
+/// google.rpc.Status { code = 1; message = 2; details = 3 } with one google.protobuf.Any
+/// { type_url = 1; value = 2 } per detail
+fn ind_status(r: &mut Rng, code: i32, msg: &str, ds: &[Det]) -> Vec<u8> {
+    let mut ems: Vec<Em> = vec![];
+    let decoy = r.chance(1, 10);
+    if decoy {
+        ems.push(em_int(r, 1, 9));
+    }
+    if code != 0 || decoy || r.chance(1, 3) {
+        ems.push(em_int(r, 1, code as i64 as u64));
+    }
+    em_str(r, 2, msg.as_bytes(), &mut ems);
+    for d in ds {
+        let mut any = vec![];
+        em_str(r, 1, URLS[d.kind()].as_bytes(), &mut any);
+        let p = ind_payload(r, d);
+        if r.chance(1, 10) {
+            any.push(em_len(2, &rbytes(r, 0, 5)));
+        }
+        any.push(em_len(2, &p));
+        ems.push(em_len(3, &lay_out(r, any)));
+    }
+    lay_out(r, ems)
+}
+fn case_wire(out: &mut Out, prefix: &str, r: &mut Rng, code: i32, msg: &str, ds: &[Det], direct: bool) {
+    let bytes = ind_status(r, code, msg, ds);
+    case_wire_bytes(out, prefix, code, msg, ds, &bytes, direct);
+}
+fn case_wire_bytes(out: &mut Out, prefix: &str, code: i32, msg: &str, ds: &[Det], bytes: &[u8], direct: bool) {
+    let outer = if direct { 2 } else { (code as u32).min(16) };
+    let st = Status::with_details(Code::from_i32(outer as i32), msg, Bytes::copy_from_slice(bytes));
+    let (obs, d, mut oracle) = if direct {
+        let d = decode_all(&st);
+        (d.tr(), Some(d), None)
+    } else {
+        let (t, back, why) = via_headers(&st);
+        (t, back.map(|x| x.1), why)
+    };
+    let model = if direct { format!("obs_hostile_direct {}", cb(bytes)) } else { format!("obs_hostile {} {} {}", outer, cs(msg), cb(bytes)) };
+    if let Some(d) = &d {
+        let exp: Vec<Tr> = ds.iter().map(expected).collect();
+        let e = wire::expect(bytes);
+        oracle = oracle.or_else(|| judge_decode(d, bytes)).or_else(|| {
+            if d.check_vec != ok(Tr::L(exp.clone())) {
+                Some("bytes written from a description of the details by an independent encoder: check_error_details_vec reads other details (kinds / order / field values)".into())
+            } else if d.embedded != ok(Tr::L(vec![Tr::n(code as u32), ps(msg), Tr::L(ds.iter().map(|d| Tr::n(d.kind() as u64)).collect())])) {
+                Some("bytes written by an independent encoder: the embedded google.rpc.Status is read with another code / message / type URLs".into())
+            } else if e.vec != Some(Some(exp)) {
+                Some("harness: the independent decoder does not read back what the independent encoder wrote".into())
+            } else {
+                None
+            }
+        });
+    }
+    out.hist("wire.count", ds.len());
+    out.hist("wire.len", size_bucket(bytes.len()));
+    out.push(Case {
+        kind: format!("{}wire", prefix),
+        input: json!({"code": code, "msg": hs(msg), "vec": ds.iter().map(det_json).collect::<Vec<_>>(), "details": hex(bytes), "direct": direct}),
+        model,
+        impl_obs: obs,
+        oracle,
+        nontrivial: !ds.is_empty(),
+    });
+}
+
 // ------------------------------------------------------------------ corpus
 fn s(x: &str) -> String {
     x.to_string()
@@ -1329,6 +1913,38 @@ fn corpus(out: &mut Out) {
         case_vec(out, p, 0, "", &[], &md, false);
         case_set(out, p, 0, "", &NONE10, 0, &md);
     }
+    // the caller's own grpc-status-details-bin entry in the metadata: replaced by the attached details;
+    // when nothing at all is attached (empty details bytes) it is what travels
+    {
+        let own = any_bytes(URLS[9], &[0x0a, 0x02, 0x65, 0x6e, 0x12, 0x01, 0x78]);
+        let md = vec![(s("x-a"), b"1".to_vec()), (s(DETAILS_BIN), own.clone()), (s(DETAILS_BIN), vec![0xff, 0xff])];
+        case_set(out, p, 3, "own", &full_set(), 0, &md);
+        case_vec(out, p, 0, "", &[Det::Req(s("id"), s(""))], &md, false);
+        case_vec(out, p, 1, "", &[], &md, false);
+        case_vec(out, p, 0, "m", &[], &md, false);
+        case_vec(out, p, 0, "", &[], &md, false);
+        case_set(out, p, 0, "", &NONE10, 0, &md);
+        case_set(out, p, 0, "", &NONE10, 0, &[(s(DETAILS_BIN), vec![0xff, 0xff]), (s(DETAILS_BIN), own)]);
+    }
+    // the builder API: add after set, set after add, add on an unset detail, every with_* constructor
+    {
+        let q = |a: &str, b: &str| Op::AddQuota(s(a), s(b));
+        case_built(out, p, 3, "b", &[], false, &[]);
+        case_built(out, p, 3, "b", &[q("s1", "d1")], true, &[]);
+        case_built(out, p, 3, "b", &[q("s1", "d1"), q("s2", "d2"), Op::SetQuota(vec![]), q("s3", "")], false, &[]);
+        case_built(out, p, 3, "b", &[Op::SetQuota(vec![(s("a"), s("b"))]), q("s2", "d2"), Op::SetQuota(vec![])], true, &[]);
+        let all = vec![
+            Op::SetRetry(Some((u64::MAX, 5))), Op::SetDebug(vec![s("e")], s("d")), Op::SetQuota(vec![(s("a"), s("b"))]), Op::AddQuota(s("c"), s("d")),
+            Op::SetInfo(s("r"), s("d"), vec![(s("k"), s("v"))]), Op::SetPrec(vec![]), Op::AddPrec(s("t"), s("s"), s("d")), Op::SetBad(vec![(s("f"), s("d"))]),
+            Op::AddBad(s("f2"), s("")), Op::SetReq(s("i"), s("")), Op::SetRes(s("t"), s("n"), s("o"), s("d")), Op::SetHelp(vec![]), Op::AddHelp(s("d"), s("u")),
+            Op::SetLoc(s("en"), s("m")),
+        ];
+        case_built(out, p, 3, "b", &all, false, &[(s("x-a"), b"1".to_vec())]);
+        for op in &all {
+            case_built(out, p, 5, "", &[op.clone()], true, &[]);
+            case_built(out, p, 5, "", &[op.clone(), op.clone()], false, &[]);
+        }
+    }
     // boundary durations
     for (sec, nan) in [(0u64, 0u32), (0, 1), (0, 999_999_999), (1, 0), (PB_MAX_SECS, 0), (PB_MAX_SECS, 999_999_999), (PB_MAX_SECS - 1, 999_999_999), (127, 128), (1 << 35, 16_384)] {
         let mut one = NONE10;
@@ -1368,7 +1984,13 @@ fn replay(out: &mut Out, path: &str) {
     let i = &v["input"];
     let code = i["code"].as_u64().unwrap_or(2) as u32;
     let msg = unhs(&i["msg"]);
-    if kind.ends_with("hostile") {
+    if kind.ends_with("built") {
+        let ops: Vec<Op> = i["ops"].as_array().unwrap().iter().map(op_from_json).collect();
+        case_built(out, "replay.", code, &msg, &ops, i["first_as_with"].as_bool().unwrap_or(false), &md_from_json(&i["md"]));
+    } else if kind.ends_with("wire") {
+        let ds: Vec<Det> = i["vec"].as_array().unwrap().iter().map(det_from_json).collect();
+        case_wire_bytes(out, "replay.", i["code"].as_i64().unwrap_or(2) as i32, &msg, &ds, &unhex(i["details"].as_str().unwrap()), i["direct"].as_bool().unwrap_or(true));
+    } else if kind.ends_with("hostile") {
         case_hostile(out, "replay.", code, &msg, &unhex(i["details"].as_str().unwrap()), i["direct"].as_bool().unwrap_or(true), "replay");
     } else if kind.ends_with("set") {
         let mut ds = NONE10;
@@ -1384,7 +2006,7 @@ fn replay(out: &mut Out, path: &str) {
     }
 }
 
-const RULE: &str = "set: random ErrorDetails built through the public builders (set_*/add_*/with_*), each of the ten kinds present with probability 1/2, strings over a unicode/empty/long alphabet, 0..7 violations/links/stack entries/metadata pairs, delays None/0/max/sub-second within the protobuf range, attached with Status::with_error_details[_and_metadata], written with add_header, read with from_header_map, decoded with every getter of StatusExt (and of RpcStatusExt on the decoded pb::Status); half of the cases carry user metadata (repeated, binary and reserved names) whose arrival is observed and judged; one detail in six is present-but-empty on purpose (None delay, no violations/links, empty strings and maps); vec: the same for random Vec<ErrorDetail> of length 0..8 with repeated kinds (vec.out_of_range: literal RetryInfo delays beyond the protobuf range, oracle restricted to kinds/order); hostile: arbitrary bytes as details - random bytes, mutated valid encodings, structured google.rpc.Status with valid/foreign/mutated/random payloads, unknown and near-miss type URLs, Duration boundaries, repeated fields, groups, bad UTF-8, non-minimal and overflowing varints, half of them through the header encoding. Non-trivial = at least one detail attached / non-empty bytes. Distinct = distinct (kind, model expression).";
+const RULE: &str = "set: random ErrorDetails built through the public builders (set_*/add_*/with_*), each of the ten kinds present with probability 1/2, strings over a unicode/empty/long alphabet, 0..7 violations/links/stack entries/metadata pairs, delays None/0/max/sub-second within the protobuf range, attached with Status::with_error_details[_and_metadata], written with add_header, read with from_header_map, decoded with every getter of StatusExt (and of RpcStatusExt on the decoded pb::Status); half of the cases carry user metadata (repeated, binary and reserved names; one in five of those also one or two grpc-status-details-bin entries of the caller's own, a third of which with nothing attached at all) whose arrival is observed and judged; one detail in six is present-but-empty on purpose (None delay, no violations/links, empty strings and maps); vec: the same for random Vec<ErrorDetail> of length 0..8 with repeated kinds (vec.out_of_range: literal RetryInfo delays beyond the protobuf range - judged strictly: unchanged up to i64::MAX seconds, the documented maximum above); built: 0..9 random calls of ErrorDetails::set_*/add_* (adds in runs, sets after adds), the first possibly as the with_* constructor, has_* queries observed, expectation from the harness's own simulation of set = replace / add = append-or-start; every attached case is also read by the independent protobuf reader of wire.rs (code, message, type URLs, field values of every payload); wire: details bytes written from a description of 0..6 details by the harness's own writer with the liberties of the encoding specification (field order, explicit defaults, overwritten singular fields, split singular messages, non-minimal varints, unknown fields, codes outside 0..16), read by StatusExt and judged against the description; hostile: arbitrary bytes as details - random bytes, mutated valid encodings, structured google.rpc.Status with valid/foreign/mutated/random payloads, unknown and near-miss type URLs, Duration boundaries, repeated fields, groups, bad UTF-8, non-minimal and overflowing varints, half of them through the header encoding, judged by no-panic + consistency + the independent reader wherever the specification decides the reading. Non-trivial = at least one detail attached / one builder call / non-empty bytes. Distinct = distinct (kind, model expression).";
 
 fn main() {
     let a = args();
@@ -1399,8 +2021,8 @@ fn main() {
 
     // rounds of 1 set, 1 vec, 5 hostile cases, so that every shard of the model evaluation
     // gets the same mix
-    let rounds = if a.thorough { 5000 } else { 450 };
-    for _ in 0..rounds {
+    let rounds = if a.thorough { 4000 } else { 450 };
+    for round in 0..rounds {
         {
             let mut ds = NONE10;
             let dense = r.chance(1, 8);
@@ -1413,7 +2035,11 @@ fn main() {
             let msg = if r.chance(1, 4) { String::new() } else { gen_string(&mut r) };
             let style = r.next();
             let md = gen_md(&mut r);
-            case_set(&mut out, "", code, &msg, &ds, style, &md);
+            if md.iter().any(|(k, _)| k == DETAILS_BIN) && r.chance(1, 3) {
+                case_set(&mut out, "", 0, "", &NONE10, style, &md);
+            } else {
+                case_set(&mut out, "", code, &msg, &ds, style, &md);
+            }
         }
         {
             let n = match r.below(10) {
@@ -1433,9 +2059,49 @@ fn main() {
             let msg = if r.chance(1, 4) { String::new() } else { gen_string(&mut r) };
             let md = gen_md(&mut r);
             let plain = r.chance(1, 2);
-            case_vec(&mut out, "", code, &msg, &ds, &md, plain);
+            if md.iter().any(|(k, _)| k == DETAILS_BIN) && r.chance(1, 3) {
+                case_vec(&mut out, "", 0, "", &[], &md, plain);
+            } else {
+                case_vec(&mut out, "", code, &msg, &ds, &md, plain);
+            }
         }
-        for _ in 0..5 {
+        if round % 2 == 0 {
+            let n = match r.below(8) {
+                0 => 0,
+                1..=3 => r.range(1, 3),
+                _ => r.range(4, 9),
+            };
+            let mut ops: Vec<Op> = vec![];
+            for _ in 0..n {
+                // adds tend to come in runs, and to follow a set of the same detail
+                let op = match ops.last() {
+                    Some(Op::AddQuota(..)) | Some(Op::SetQuota(..)) if r.chance(1, 2) => Op::AddQuota(gen_string(&mut r), gen_string(&mut r)),
+                    Some(Op::AddPrec(..)) | Some(Op::SetPrec(..)) if r.chance(1, 2) => Op::AddPrec(gen_string(&mut r), gen_string(&mut r), gen_string(&mut r)),
+                    Some(Op::AddBad(..)) | Some(Op::SetBad(..)) if r.chance(1, 2) => Op::AddBad(gen_string(&mut r), gen_string(&mut r)),
+                    Some(Op::AddHelp(..)) | Some(Op::SetHelp(..)) if r.chance(1, 2) => Op::AddHelp(gen_string(&mut r), gen_string(&mut r)),
+                    _ => gen_op(&mut r),
+                };
+                ops.push(op);
+            }
+            let code = r.below(17) as u32;
+            let msg = if r.chance(1, 4) { String::new() } else { gen_string(&mut r) };
+            let md = if r.chance(1, 3) { gen_md(&mut r) } else { vec![] };
+            let first_as_with = r.chance(1, 2);
+            case_built(&mut out, "", code, &msg, &ops, first_as_with, &md);
+        }
+        {
+            let n = match r.below(10) {
+                0 => 0,
+                1..=5 => r.range(1, 2),
+                _ => r.range(3, 6),
+            };
+            let ds: Vec<Det> = (0..n).map(|_| { let k = r.below(10) as usize; gen_det(&mut r, k, false) }).collect();
+            let code = if r.chance(1, 12) { *r.pick(&[-1i32, 17, 255, i32::MAX, i32::MIN]) } else { r.below(17) as i32 };
+            let msg = if r.chance(1, 3) { String::new() } else { gen_string(&mut r) };
+            let direct = r.chance(1, 2);
+            case_wire(&mut out, "", &mut r, code, &msg, &ds, direct);
+        }
+        for _ in 0..4 {
             let (bytes, family): (Vec<u8>, &str) = match r.below(12) {
                 0 => (rbytes(&mut r, 0, 24), "random"),
                 1 => {
